@@ -149,6 +149,8 @@ func TestSim(t *testing.T) {
 	res.RequiredReach = p.RequiredReach
 	states := map[string]bool{}
 	minimised := map[string]bool{}
+	tries := map[string]int{}
+	unreproduced := map[string]WorkerViolation{}
 	for j := *fShard; j < *fRuns; j += *fNShards {
 		rs := mixSeed(*fSeed, j)
 		curRunIndex = j
@@ -172,6 +174,7 @@ func TestSim(t *testing.T) {
 				continue
 			}
 			minimised[sig] = true
+			tries[sig]++
 			plan := rr.Plan
 			if v.Plan != nil {
 				plan = *v.Plan
@@ -236,8 +239,19 @@ func TestSim(t *testing.T) {
 				}
 			}
 			wv.Replay = writeReplay(*fReplayDir, min)
+			if !wv.Repro && tries[sig] < 4 {
+				// this occurrence owed something to what earlier runs left in
+				// the process; a later occurrence of the same signature may not
+				delete(minimised, sig)
+				unreproduced[sig] = wv
+				continue
+			}
+			delete(unreproduced, sig)
 			res.Violations = append(res.Violations, wv)
 		}
+	}
+	for _, wv := range unreproduced {
+		res.Violations = append(res.Violations, wv)
 	}
 	for s := range states {
 		res.States = append(res.States, s)
